@@ -228,7 +228,7 @@ Proof.
   split; [solve_hist|]. split; [reflexivity|]. split; [reflexivity|]. destruct cadel; reflexivity.
 Qed.
 
-(* F30: the files of a CA secret survive its deletion (code as it stands: cadel = false) *)
+(* F34: the files of a CA secret survive its deletion (code as it stands: cadel = false) *)
 Definition h_ca_leak : list op := [Upsert "default" "x" vCA; Get "default/x"; Delete "default/x"].
 
 Theorem ca_files_leak_refuted :
@@ -244,7 +244,7 @@ Proof.
   intros H. specialize (H "default-x-ca.crt" (or_intror (or_introl eq_refl))). vm_compute in H. discriminate.
 Qed.
 
-(* F31: a materialised Secret reappears with another type: the old file stays *)
+(* F35: a materialised Secret reappears with another type: the old file stays *)
 Definition h_retype : list op := [Upsert "default" "x" vJ; Get "default/x"; Upsert "default" "x" vO].
 
 Theorem type_change_refuted :
@@ -258,7 +258,7 @@ Proof.
   intros H. specialize (H "default-x" (or_introl eq_refl)). destruct cadel; vm_compute in H; discriminate.
 Qed.
 
-(* F32: a CA secret x and a Secret named x-ca.crt in the same namespace share a file, even with
+(* F36: a CA secret x and a Secret named x-ca.crt in the same namespace share a file, even with
    the repaired DeleteSecret and although the namespace contains no dash *)
 Definition h_ca_suffix : list op :=
   [Upsert "default" "x" vCA; Upsert "default" "x-ca.crt" vB; Get "default/x-ca.crt"; Get "default/x"].
